@@ -10,7 +10,8 @@ RULE = ("series of 2..6 frames with arbitrary increasing time stamps (spanning 1
         "tracking bounds, independent renumbering per frame, frames with a vanished border cell; velocity of every interface "
         "end point and of some interior vertices at every frame; b_matrix in {none, velocity}, adimensional_velocity on/off, "
         "velocity_normalization values. distinct = (cells, frames, time pattern, cm, options); non-trivial = a moving junction"
-        ' Added after the seeded rounds: id 0, velocity_normalization 0, systems built with an angle limit before the system velocity is asked for.')
+        ' Added after the seeded rounds: id 0, velocity_normalization 0, systems built with an angle limit before the system velocity is asked for.'
+        ' Frames dictionaries filled in another order than their keys.')
 MIN_DECISIVE = {"quick": 100, "thorough": 1500}
 REQUIRED_COUNTERS = ["post:calculate_velocity", "velocity:forward", "velocity:backward", "velocity:missing-partner",
                      "post:set_velocity_matrix", "system-velocity:checked", "rhs:static-zero"]
